@@ -739,7 +739,10 @@ class TaskScenario(ScenarioData):
             effort_before = self.doneEffort
             self.bookResources()
 
-            if self.doneEffort >= effort:
+            # Tolerate float accumulation (0.7 h per slot three times is 2.0999999999999996 h):
+            # without it a task that exactly fills its last slot would walk on and book a
+            # zero-length sliver of the next working slot, possibly on the next day
+            if self.doneEffort >= effort - 1e-9:
                 # Finished - calculate precise end time within the final slot
                 # and release unused time for other tasks
                 end_date, _seconds_used = self._calculatePreciseEndTimeAndRelease(effort, effort_before, forward)
